@@ -5,6 +5,7 @@ use vstd::prelude::*;
 use vstd::string::StringSliceAdditionalSpecFns;
 use vstd::utf8::*;
 use vstd::std_specs::hash::*;
+use vstd::std_specs::btree::key_obeys_cmp_spec;
 use std::collections::{BTreeMap, HashMap};
 //@include prelude/bn_stubs.rs
 
@@ -17,7 +18,42 @@ verus! {
 //@include spec/lowlevel.rs
 //@include spec/sem.rs
 //@include spec/sem_arms.rs
+//@include spec/evalctx_types.rs
+//@include spec/evalctx.rs
+//@include spec/sem_laws.rs
 //@fmtfns
+
+// ---------------- operators (proved in unit ops; assumed here with the same contract text)
+//@assume eval_neg
+//@assume eval_imp
+//@assume eval_equiv
+//@assume eval_xor
+//@assume eval_ex
+//@assume eval_ax
+//@assume eval_eg
+//@assume eval_af
+//@assume eval_eu_saturated
+//@assume eval_ef_saturated
+//@assume eval_ag
+//@assume eval_au
+//@assume eval_ew
+//@assume eval_aw
+//@assume eval_prop
+//@assume eval_hctl_var
+//@assume eval_bind
+//@assume eval_exists
+//@assume eval_jump
+//@assume substitute_hctl_var
+//@assume compute_valid_domain_for_var
+// ---------------- algorithm.rs
+//@trusted get_canonical_and_renaming
+//@trusted compute_attractor_states
+//@verify compute_steady_states
+//@verify is_attractor_pattern
+//@verify is_fixed_point_pattern
+//@verify eval_hybrid_quantifier
+//@verify restrict_stg_unit_bdd
+//@verify eval_node
 
 fn main() {}
 } // verus!
